@@ -20,6 +20,8 @@ var files = []genFile{
 	{"Tokens.lean", genTokens},
 	{"JsonTables.lean", genJsonTables},
 	{"SymFacts.lean", genSymFacts},
+	{"ConvReg.lean", genConvReg},
+	{"Conv.lean", genConv},
 }
 
 func main() {
